@@ -169,6 +169,15 @@ type rwWait struct {
 
 var active *Sim
 
+// nativeMode: the simulator does not schedule at all (the harness runs tasks as ordinary
+// goroutines because the code under test uses synchronisation the simulator cannot model:
+// channels, select, sync.Cond, WaitGroup, goroutines of its own). Yield points then merely
+// invite the Go scheduler to switch.
+var nativeMode bool
+
+// SetNativeMode must be called while no task is running.
+func SetNativeMode(on bool) { nativeMode = on }
+
 //go:norace
 func getActive() *Sim { return active }
 
@@ -666,6 +675,9 @@ func current() (*Sim, *Task) {
 func Yield(site string) {
 	s, t := current()
 	if s == nil {
+		if nativeMode {
+			runtime.Gosched()
+		}
 		return
 	}
 	s.step(t, site, EvYield, false)
